@@ -204,6 +204,91 @@ Proof.
   - destruct (p_size st =? 0); [reflexivity|]. rewrite show_keeps_cols. reflexivity.
 Qed.
 
+(* ---- files: the figures of a line are the current file's own ---- *)
+Lemma figs_show clamped st now t s e : figs (fst (show w sw mdr clamped st now t s e)) = figs st.
+Proof.
+  unfold show, figs. destruct (throttled st now); [reflexivity|]. cbv zeta.
+  destruct (progress_text_gen _ _ _ _ _ _ _ _ _ _ _ _ _ _); reflexivity.
+Qed.
+
+Lemma figs_apply_op clamped o st : figs (fst (apply_op w sw mdr clamped o st)) = figs_next o (figs st).
+Proof.
+  destruct o as [n|nm|z|z now t s e|now t s e|z|b|c]; cbn [apply_op]; unfold figs_next; cbv zeta;
+    try (unfold figs; reflexivity).
+  - unfold figs at 2. cbv beta iota.
+    destruct (wrap64 (z + p_pre st) <=? p_step st); [reflexivity|].
+    destruct (p_pausing st); [reflexivity|]. rewrite figs_show. reflexivity.
+  - unfold figs at 2. cbv beta iota.
+    destruct (p_size st =? 0); [reflexivity|]. rewrite figs_show. reflexivity.
+Qed.
+
+Lemma figs_run clamped : forall ops st,
+  figs (fst (run w sw mdr clamped ops st)) = fold_left (fun f o => figs_next o f) ops (figs st).
+Proof.
+  induction ops as [|o r IH]; intro st; [reflexivity|]. cbn [run fold_left].
+  pose proof (figs_apply_op clamped o st) as H.
+  destruct (apply_op w sw mdr clamped o st) as [st1 out]. cbn [fst] in H.
+  specialize (IH st1). destruct (run w sw mdr clamped r st1) as [st2 outs]. cbn [fst] in *.
+  rewrite IH, H. reflexivity.
+Qed.
+
+(* once a file has been announced (name, size) nothing of what came before is left in the
+   figures: whatever the earlier files of the transfer did *)
+Lemma file_figs_own clamped st1 st2 nm z rest :
+  figs (fst (run w sw mdr clamped (OpName nm :: OpSize z :: rest) st1)) =
+  figs (fst (run w sw mdr clamped (OpName nm :: OpSize z :: rest) st2)).
+Proof.
+  rewrite !figs_run. cbn [fold_left]. unfold figs.
+  cbn [figs_next]. reflexivity.
+Qed.
+
+Lemma wrap64_id z : - 2 ^ 63 <= z < 2 ^ 63 -> wrap64 z = z.
+Proof. intro H. unfold wrap64. rewrite Z.mod_small by lia. lia. Qed.
+
+Lemma initial_step_negative : Consts.progress_initial_step < 0.
+Proof. reflexivity. Qed.
+
+Lemma figs_steps_keep : forall l pre size step, exists step',
+  fold_left (fun f o => figs_next o f) (map mk_step l) (pre, size, step) = (pre, size, step').
+Proof.
+  induction l as [|[[z now] [[t s] e]] l IH]; intros pre size step; [exists step; reflexivity|].
+  cbn [map fold_left mk_step figs_next].
+  destruct (wrap64 (z + pre) <=? step); apply IH.
+Qed.
+
+(* a file that is sent from its beginning starts at position 0 of its own size *)
+Lemma file_start_figs clamped st nm z now t s e : 0 < z < 2 ^ 63 ->
+  figs (fst (run w sw mdr clamped [OpName nm; OpSize z; OpStep 0 now t s e] st)) = (0, z, 0).
+Proof.
+  intro Hz. rewrite figs_run. unfold figs. cbn [fold_left figs_next].
+  rewrite Z.add_0_l, Z.add_0_l, !wrap64_id by lia.
+  pose proof initial_step_negative.
+  destruct (0 <=? Consts.progress_initial_step) eqn:E; [apply Z.leb_le in E; lia | reflexivity].
+Qed.
+
+(* a file ends at its own full size, resumed or not, whatever was matched and sent *)
+Lemma file_end_figs clamped st nm full resume steps done : 0 < full < 2 ^ 63 ->
+  (forall hs m, resume = Some (hs, m) -> 0 <= m <= full) ->
+  exists pre, figs (fst (run w sw mdr clamped (file_ops nm full resume steps done) st)) = (pre, full, full).
+Proof.
+  intros Hf Hm. rewrite figs_run. unfold file_ops, figs. cbn [fold_left figs_next].
+  destruct resume as [[hs m]|].
+  - specialize (Hm hs m eq_refl).
+    cbn [app fold_left figs_next]. rewrite Z.add_0_l, wrap64_id by lia.
+    rewrite <- app_assoc, fold_left_app.
+    destruct (figs_steps_keep hs 0 full Consts.progress_initial_step) as [s1 E1]. rewrite E1.
+    cbn [app fold_left figs_next]. replace (m + (full - m)) with full by lia. rewrite wrap64_id by lia.
+    rewrite fold_left_app.
+    destruct (figs_steps_keep steps m full s1) as [s2 E2]. rewrite E2.
+    destruct done as [[z now] [[t s] e]]. cbn [fold_left mk_done figs_next].
+    exists m. destruct (full =? 0) eqn:E; [apply Z.eqb_eq in E; lia | reflexivity].
+  - cbn [app fold_left figs_next]. rewrite Z.add_0_l, wrap64_id by lia.
+    rewrite fold_left_app.
+    destruct (figs_steps_keep steps 0 full Consts.progress_initial_step) as [s2 E2]. rewrite E2.
+    destruct done as [[z now] [[t s] e]]. cbn [fold_left mk_done figs_next].
+    exists 0. destruct (full =? 0) eqn:E; [apply Z.eqb_eq in E; lia | reflexivity].
+Qed.
+
 End Plain.
 
 (* ------------------------------------------------------------------------------------ *)
@@ -699,6 +784,15 @@ Proof.
   specialize (IH st1 Hw2). destruct (run w sw mdr true r st1) as [st2 outs]. cbn [fst] in *. lia.
 Qed.
 
+Lemma pct_val_start z : 100 <= kmax -> 0 < z -> pct_val 0 z = 0.
+Proof.
+  intros Hk Hz. unfold pct_val, pct_num. destruct (z =? 0) eqn:E; [apply Z.eqb_eq in E; lia|].
+  destruct consts_rel as (_ & _ & _ & _ & _ & _ & Hscale & _). rewrite Hscale.
+  assert (Hd : display_step true 0 z = 0).
+  { unfold display_step. cbn [Z.ltb Z.compare]. destruct (z <? 0) eqn:E2; [apply Z.ltb_lt in E2; lia | reflexivity]. }
+  rewrite Hd. apply Hmdr_zero; lia.
+Qed.
+
 (* ---- the session: every line fits the most recent width ---- *)
 Lemma last_default_irrelevant (x : Z) l d d' : last (x :: l) d = last (x :: l) d'.
 Proof. revert x. induction l as [|y l IH]; intro x; [reflexivity|]. cbn [last] in *. apply (IH y). Qed.
@@ -1022,6 +1116,40 @@ Lemma c20_session_resize s c :
   end.
 Proof.
   unfold sess_step_cur. rewrite clamp_src_ok. apply sess_resize_width.
+Qed.
+
+(* files: a line reports the current file's own figures *)
+Lemma c20_file_figures_own st1 st2 nm z rest :
+  figs (fst (run_cur w sw mdr (OpName nm :: OpSize z :: rest) st1)) =
+  figs (fst (run_cur w sw mdr (OpName nm :: OpSize z :: rest) st2)).
+Proof. unfold run_cur. apply file_figs_own. Qed.
+
+Lemma c20_file_start st nm z now t s e : 100 <= kmax -> 0 < z < 2 ^ 63 ->
+  figs (fst (run_cur w sw mdr [OpName nm; OpSize z; OpStep 0 now t s e] st)) = (0, z, 0) /\
+  st_pct mdr (fst (run_cur w sw mdr [OpName nm; OpSize z; OpStep 0 now t s e] st)) = 0.
+Proof.
+  destruct HW as (A1 & A2 & A3 & A4 & A5 & A6 & A7 & A8 & A9). destruct HR as (B1 & B2 & B3).
+  intros Hk Hz. unfold run_cur.
+  pose proof (file_start_figs w sw mdr Consts.progress_clamped st nm z now t s e Hz) as F.
+  split; [exact F|]. unfold st_pct.
+  remember (fst (run w sw mdr Consts.progress_clamped [OpName nm; OpSize z; OpStep 0 now t s e] st)) as st' eqn:Est. clear Est.
+  unfold figs in F. injection F as F1 F2 F3. rewrite F2, F3.
+  pose proof (pct_val_start w dw mdr kmax) as H. c20_feed H. apply H; lia.
+Qed.
+
+Lemma c20_file_end st nm full resume steps done : 100 <= kmax -> 0 < full < 2 ^ 63 ->
+  (forall hs m, resume = Some (hs, m) -> 0 <= m <= full) ->
+  p_size (fst (run_cur w sw mdr (file_ops nm full resume steps done) st)) = full /\
+  p_step (fst (run_cur w sw mdr (file_ops nm full resume steps done) st)) = full /\
+  st_pct mdr (fst (run_cur w sw mdr (file_ops nm full resume steps done) st)) = 100.
+Proof.
+  destruct HW as (A1 & A2 & A3 & A4 & A5 & A6 & A7 & A8 & A9). destruct HR as (B1 & B2 & B3).
+  intros Hk Hf Hm. unfold run_cur.
+  destruct (file_end_figs w sw mdr Consts.progress_clamped st nm full resume steps done Hf Hm) as [pre F].
+  remember (fst (run w sw mdr Consts.progress_clamped (file_ops nm full resume steps done) st)) as st' eqn:Est. clear Est.
+  unfold figs in F. injection F as F1 F2 F3.
+  split; [exact F2 | split; [exact F3|]]. unfold st_pct. rewrite F2, F3.
+  pose proof (pct_val_done w dw mdr kmax) as H. c20_feed H. apply H; lia.
 Qed.
 
 End Closed.
